@@ -80,6 +80,10 @@ def pyEqF : Nat → PyVal → PyVal → Bool
       | .frozenset _ xs, .frozenset _ ys => xs.length == ys.length && xs.all (fun x => ys.any (pyEqF f x))
       | .dict _ xs, .dict _ ys =>
         xs.length == ys.length && xs.all (fun p => ys.any (fun q => pyEqF f p.1 q.1 && pyEqF f p.2 q.2))
+      -- instances printed as calls (nested dataclass / attrs instances): equal iff the same class shows equal arguments
+      | .call fa aa ka, .call fb ab kb =>
+        fa == fb && aa.length == ab.length && (aa.zip ab).all (fun p => pyEqF f p.1 p.2) &&
+          ka.length == kb.length && (ka.zip kb).all (fun p => p.1.1 == p.2.1 && pyEqF f p.1.2 p.2.2)
       | _, _ => false
 
 /-- `a != b` for built-in values nested at most 64 deep -/
